@@ -120,6 +120,14 @@ pub fn lookalikes(s: &str) -> Vec<String> {
             }
         }
     }
+    // ASCII bytes that differ only in bit 5 (what a careless `| 0x20` fold would equate): '_' / DEL,
+    // '@' / '`', '[' / '{', digits / control characters ...
+    for (i, c) in s.char_indices() {
+        if c.is_ascii() && !c.is_ascii_alphabetic() {
+            let p = ((c as u8) ^ 0x20) as char;
+            out.push(format!("{}{}{}", &s[..i], p, &s[i + 1..]));
+        }
+    }
     for (i, c) in s.char_indices() {
         if !c.is_ascii() {
             let up: String = c.to_uppercase().collect();
